@@ -25,11 +25,11 @@ use std::time::{Duration, SystemTime, UNIX_EPOCH};
 const POLICIES: [&str; 5] = ["max", "tsi48-toi112", "cci128", "min-hflip", "random"];
 const SCHEMES: [u8; 5] = [0, 5, 129, 6, 1];
 
-fn endpoint() -> UDPEndpoint {
+pub(crate) fn endpoint() -> UDPEndpoint {
     UDPEndpoint::new(None, "224.0.0.1".to_owned(), 5000)
 }
 
-fn t0() -> SystemTime {
+pub(crate) fn t0() -> SystemTime {
     UNIX_EPOCH + Duration::from_secs(1_700_000_000)
 }
 
@@ -100,7 +100,7 @@ impl SessP {
     }
 }
 
-type Stream = Vec<(Vec<u8>, SystemTime)>;
+pub(crate) type Stream = Vec<(Vec<u8>, SystemTime)>;
 
 /// run a real sender session to its end; `Err` = reason the session could not be produced
 fn run_sender(p: &SessP) -> Result<(Stream, usize), String> {
@@ -157,13 +157,13 @@ fn run_sender(p: &SessP) -> Result<(Stream, usize), String> {
 
 /// what a receiver delivered for one object
 #[derive(Clone, Debug, PartialEq)]
-struct Delivered {
-    toi: u128,
-    location: String,
-    content_length: Option<usize>,
-    data: Vec<u8>,
-    complete: bool,
-    error: bool,
+pub(crate) struct Delivered {
+    pub(crate) toi: u128,
+    pub(crate) location: String,
+    pub(crate) content_length: Option<usize>,
+    pub(crate) data: Vec<u8>,
+    pub(crate) complete: bool,
+    pub(crate) error: bool,
 }
 
 #[derive(Default)]
@@ -218,15 +218,15 @@ impl ObjectWriter for RecWriter {
 
 /// everything observable of one reception
 #[derive(Clone, Debug, PartialEq)]
-struct RxResult {
-    objs: Vec<Delivered>,
-    fdts: Vec<String>,
-    push_errors: usize,
-    panic: Option<String>,
+pub(crate) struct RxResult {
+    pub(crate) objs: Vec<Delivered>,
+    pub(crate) fdts: Vec<String>,
+    pub(crate) push_errors: usize,
+    pub(crate) panic: Option<String>,
 }
 
 /// push a stream through a fresh real `Receiver`
-fn run_rx(tsi: u64, stream: &[(Vec<u8>, SystemTime)]) -> RxResult {
+pub(crate) fn run_rx(tsi: u64, stream: &[(Vec<u8>, SystemTime)]) -> RxResult {
     let builder = Rc::new(RecBuilder::default());
     let b2: Rc<dyn ObjectWriterBuilder> = builder.clone();
     let cfg = receiver::Config { object_timeout: None, session_timeout: None, ..Default::default() };
